@@ -118,7 +118,9 @@ pub fn run(kv: &Args) -> i32 {
         build_pprf(&sid, &so, &mut sseed, &mut pprf);
         let mut rseed = ReceiverOTSeed::default();
         writeln!(plan, "ot v={v} choice={}", hex(&choice)).unwrap();
-        window(&out, &format!("pprf_eval_{v}"), || { eval_pprf(&sid, &ro, &pprf, &mut rseed).unwrap(); });
+        // results are not unwrapped: a change that makes an operation fail for some secret values must still leave the
+        // windows (and their counters) of the other operations comparable
+        window(&out, &format!("pprf_eval_{v}"), || { std::hint::black_box(eval_pprf(&sid, &ro, &pprf, &mut rseed).is_ok()); });
         // secret seed VALUES with structure: in variant 2 a known (non-punctured) leaf key of trees 0 and 63 is all-zero,
         // in variant 3 all-one, consistently on both sides; control flow may depend on the punctured INDEX being public
         // to its owner, never on key bytes
@@ -146,9 +148,9 @@ pub fn run(kv: &Args) -> i32 {
         // group order), all-zero in variant 3
         let mut r2 = tape_rng(seed, &format!("c18-rvole-{v}{}", match v % 4 { 1 => "#ones64", 3 => "#zero64", _ => "" }));
         window(&out, &format!("rvole_sender_{v}"), || {
-            sl_oblivious::rvole::RVOLESender::process(&sid, &rseed, &a, &round1, &mut out2, &mut r2).unwrap();
+            std::hint::black_box(sl_oblivious::rvole::RVOLESender::process(&sid, &rseed, &a, &round1, &mut out2, &mut r2).is_ok());
         });
-        window(&out, &format!("rvole_receiver_{v}"), || { rvr.process(&out2).unwrap(); });
+        window(&out, &format!("rvole_receiver_{v}"), || { std::hint::black_box(rvr.process(&out2).is_ok()); });
     }
     // the profiler runtime writes once more at exit: point it at a scratch file
     window(&out, "_tail", || {});
